@@ -685,7 +685,7 @@ class Folder:
         logical_and logical_xor where unique delete abs absolute real imag conj conjugate transpose dot matmul kron mod arange linspace argsort sort count_nonzero isclose
         allclose array_equal round around floor ceil sqrt exp log2 log max min amax amin argmax argmin cumsum diag trace einsum tensordot reshape ravel flip roll outer
         zeros_like ones_like copy nonzero isin append insert squeeze expand_dims tile repeat full triu tril sign bitwise_xor bitwise_and bitwise_or left_shift right_shift
-        shape ndim size finfo iinfo arccos arcsin arctan arctan2 angle cos sin tan cosh sinh tanh power multiply add subtract divide floor_divide equal not_equal greater less ix_ meshgrid flatnonzero searchsorted diff cumprod mean pad""".split())
+        shape ndim size finfo iinfo arccos arcsin arctan arctan2 angle cos sin tan cosh sinh tanh power multiply add subtract divide floor_divide equal not_equal greater less ix_ meshgrid flatnonzero searchsorted diff cumprod mean pad log10 log base_repr""".split())
     _NP_METHODS = frozenset("""astype copy sum prod max min any all reshape transpose flatten ravel dot tolist conj conjugate nonzero argsort item squeeze round mean
         argmax argmin cumsum trace diagonal swapaxes take repeat""".split())
     _NP_DTYPES = {"complex64": _np.complex64, "complex128": _np.complex128, "complex": _np.complex128, "complex_": _np.complex128, "float64": _np.float64,
@@ -1269,7 +1269,7 @@ class Folder:
                     raise Undecidable(f"sympy {m}: {ex}")
             if isinstance(obj, Rec) and m == "__getattribute__" and len(args) == 1 and args[0] in obj.fields:
                 return obj.fields[args[0]]
-            if isinstance(obj, str) and m in ("split", "join", "startswith", "endswith", "replace", "rstrip", "lstrip", "count", "find", "isdigit", "format") and not kwargs:
+            if isinstance(obj, str) and m in ("split", "join", "startswith", "endswith", "replace", "rstrip", "lstrip", "count", "find", "isdigit", "format", "rjust", "ljust", "zfill", "center", "index", "rfind", "partition") and not kwargs:
                 try:
                     return getattr(obj, m)(*args)
                 except Exception as ex:
